@@ -307,6 +307,56 @@ def Agree1 (de : Bytes → Nat → TOut) (fv : FromValue.R) (txt : Bytes) : Prop
   | .ok tv => de (txt ++ rest) pos = .ok tv rest (pos + txt.length)
   | .error _ => ∀ x r p, de (txt ++ rest) pos ≠ .ok x r p
 
+omit hext in
+/-- the unread input starts with the byte that follows the integer part of a number written with a fraction or an
+    exponent (`.`, `e`, `E`): what a 128-bit integer target leaves behind on the text of a float (`scan_integer128` stops
+    at the first non-digit; the rejection is left to the caller) -/
+def BadHead (r : Bytes) : Prop := ∃ c tl, r = c :: tl ∧ (c = 0x2e ∨ c = 0x65 ∨ c = 0x45)
+
+omit hext in
+/-- `Agree1` with the failure branch weakened to what the 128-bit integer targets satisfy: when the `Value` side fails the
+    typed parser does not return `ok` — or returns it with the unread input at `.` / `e` / `E` inside the number, which every
+    caller (the next `,` / `]` / `}` test of a container, `end()` at top level) rejects. Container lemmas take this of their
+    elements and still conclude the strong `Agree1`; `Option` and newtype pass it through. -/
+def Agree1w (de : Bytes → Nat → TOut) (fv : FromValue.R) (txt : Bytes) : Prop := ∀ rest pos, SepOK rest →
+  match fv with
+  | .ok tv => de (txt ++ rest) pos = .ok tv rest (pos + txt.length)
+  | .error _ => ∀ x r p, de (txt ++ rest) pos = .ok x r p → BadHead r
+
+omit hext in
+theorem Agree1.weak {de : Bytes → Nat → TOut} {fv : FromValue.R} {txt : Bytes} (h : Agree1 de fv txt) : Agree1w de fv txt := by
+  intro rest pos hs
+  have := h rest pos hs
+  cases fv with
+  | ok tv => exact this
+  | error e => exact fun x r p hx => absurd hx (this x r p)
+
+omit hext in
+theorem badHead_facts {r : Bytes} (h : BadHead r) : ∃ c tl, r = c :: tl ∧ Machine.isWs c = false ∧ (c == 0x5d) = false ∧
+    (c == 0x2c) = false ∧ (c == 0x7d) = false := by
+  obtain ⟨c, tl, rfl, rfl | rfl | rfl⟩ := h <;> exact ⟨_, _, rfl, by decide, by decide, by decide, by decide⟩
+
+omit hext in
+/-- a continuation that fails on such an input makes the whole `bind` fail -/
+theorem bind_bad {α β : Type} {r : Res α} {k : α → Bytes → Nat → Res β}
+    (h : ∀ x r' p, r = .ok x r' p → BadHead r') (hk : ∀ x r' p, BadHead r' → ∀ y r'' p', k x r' p ≠ .ok y r'' p') :
+    ∀ y r'' p', r.bind k ≠ .ok y r'' p' := by
+  intro y r'' p'
+  cases hr : r with
+  | ok x r' p => simp only [Res.bind]; exact hk x r' p (h x r' p hr) y r'' p'
+  | _ => simp [Res.bind]
+
+omit hext in
+theorem map_bad {α β : Type} {r : Res α} {f : α → β} (h : ∀ x r' p, r = .ok x r' p → BadHead r') :
+    ∀ y r' p, r.map f = .ok y r' p → BadHead r' := by
+  intro y r' p e
+  cases hr : r with
+  | ok x r1 p1 =>
+    rw [hr] at e
+    simp only [Res.map, Res.bind, Res.ok.injEq] at e
+    exact e.2.1 ▸ h x r1 p1 hr
+  | _ => rw [hr] at e; simp [Res.map, Res.bind] at e
+
 /-- the first byte of a printed value tells its kind (and is never whitespace or `]`) -/
 def HeadOf (v : JV) (c : UInt8) : Prop :=
   match v with
@@ -790,6 +840,39 @@ theorem agree_option (s : Schema) (f t : Nat) (v : JV) (hv : VOK v)
       simp only [ht.1, Bool.false_eq_true, if_false]
       exact map_not_ok ih' x r p
 
+omit hext in
+/-- `Option<T>` passes the weak invariant of its content through -/
+theorem agree_option_w (s : Schema) (f t : Nat) (v : JV) (hv : VOK v)
+    (ih : v ≠ .null → Agree1w (deTyped env f t s) (FromValue.fromValue cfg' ext' s v) (T ext v)) (hT : ∃ c tl, T ext v = c :: tl ∧ HeadOf v c) :
+    Agree1w (deTyped env (f + 1) t (.option s)) (FromValue.fromValue cfg' ext' (.option s) v) (T ext v) := by
+  cases v with
+  | null => exact (agree_option ext hflt cfg' hap ext' s f t .null hv (fun h => absurd rfl h) hT).weak
+  | bool _ | num _ | str _ | arr _ | obj _ =>
+    intro rest pos hs
+    obtain ⟨c, tl, hT, hc⟩ := hT
+    have hw := (headOf_facts hc).1
+    have ht := headOf_tests hc
+    rw [deTyped_option]
+    have ih' := ih (by intro h; cases h) rest pos hs
+    simp only [FromValue.fromValue]
+    rw [hT] at ih' ⊢
+    simp only [List.cons_append] at ih' ⊢
+    cases hfv : FromValue.fromValue cfg' ext' s _ with
+    | ok tv =>
+      rw [hfv] at ih'
+      simp only [Except.map] at ih' ⊢
+      rw [skipWs_cons hw]
+      simp only [ht.1, Bool.false_eq_true, if_false]
+      rw [ih']
+      simp [Res.map, Res.bind]
+    | error e =>
+      rw [hfv] at ih'
+      simp only [Except.map] at ih' ⊢
+      intro x r p
+      rw [skipWs_cons hw]
+      simp only [ht.1, Bool.false_eq_true, if_false]
+      exact map_bad ih' x r p
+
 /-- the text that follows an element inside an array -/
 def Ttail : List JV → Bytes
   | [] => []
@@ -829,9 +912,66 @@ theorem sepOK_tail (xs : List JV) (rest : Bytes) : SepOK (Ttail ext xs ++ 0x5d :
   | nil => exact .inr ⟨0x5d, rest, rfl, .inr (.inl rfl)⟩
   | cons x xs => exact .inr ⟨0x2c, _, rfl, .inl rfl⟩
 
+omit hflt hap hext in
+/-- after an element, `.` / `e` / `E` is neither `,` nor `]` -/
+theorem hasNextElement_bad {r : Bytes} (h : BadHead r) (pos : Nat) : ∀ b r' p', hasNextElement env false r pos ≠ .ok b r' p' := by
+  obtain ⟨c, tl, rfl, hw, h5, h2, _⟩ := badHead_facts h
+  intro b r' p'
+  unfold hasNextElement
+  rw [withPeek_cons env _ hw]
+  simp [h5, h2]
+
+omit hflt hap hext in
+theorem seqLoop_bad (de : Bytes → Nat → TOut) {r : Bytes} (h : BadHead r) :
+    ∀ (n : Nat) (acc : List TVal) (pos : Nat) a r' p', seqLoop env de n false acc r pos ≠ .ok a r' p' := by
+  intro n
+  cases n with
+  | zero => intro acc pos a r' p'; simp [seqLoop]
+  | succ n =>
+    intro acc pos
+    unfold seqLoop nextElement
+    exact bind_not_ok (bind_not_ok (hasNextElement_bad h pos))
+
+omit hflt hap hext in
+/-- a fixed-length visitor that has taken all its elements returns; with elements still to take it fails -/
+theorem tupleLoop_bad (de : Schema → Bytes → Nat → TOut) {r : Bytes} (h : BadHead r) :
+    ∀ (ss : List Schema) (acc : List TVal) (pos : Nat) a r' p', tupleLoop env de ss false acc r pos = .ok a r' p' → BadHead r' := by
+  intro ss
+  cases ss with
+  | nil =>
+    intro acc pos a r' p' e
+    simp only [tupleLoop, Res.ok.injEq] at e
+    exact e.2.1 ▸ h
+  | cons s ss =>
+    intro acc pos a r' p' e
+    unfold tupleLoop nextElement at e
+    exact absurd e (bind_not_ok (bind_not_ok (hasNextElement_bad h pos)) a r' p')
+
+omit hflt hap hext in
+theorem endSeq_bad {r : Bytes} (h : BadHead r) (pos : Nat) : ∀ u r' p', (endSeq env r pos).res ≠ .ok u r' p' := by
+  obtain ⟨c, tl, rfl, hw, h5, _, _⟩ := badHead_facts h
+  intro u r' p'
+  unfold endSeq
+  rw [skipWs_cons hw]
+  simp only [h5, Bool.false_eq_true, if_false]
+  split
+  · split <;> simp
+  · simp
+
+omit hflt hap hext in
+/-- `end_seq` after a loop that failed, or returned in front of `.` / `e` / `E` -/
+theorem closeWith_seq_bad {α : Type} {ret : Res α} (h : ∀ x r p, ret = .ok x r p → BadHead r) :
+    ∀ x r p, closeWith env (endSeq env) ret ≠ .ok x r p := by
+  intro x r p
+  cases hr : ret with
+  | ok x' r' p' =>
+    simp only [closeWith]
+    exact bind_not_ok (endSeq_bad (h x' r' p' hr) p') x r p
+  | _ => simp [closeWith]
+
 /-- elements of an array read by the element parser `de`, against `seqAll fv`; `first`: no element has been read yet -/
 theorem seqLoop_text (de : Bytes → Nat → TOut) (fv : JV → FromValue.R) :
-    ∀ (xs : List JV), (∀ x ∈ xs, Agree1 de (fv x) (T ext x) ∧ ∃ c tl, T ext x = c :: tl ∧ HeadOf x c) →
+    ∀ (xs : List JV), (∀ x ∈ xs, Agree1w de (fv x) (T ext x) ∧ ∃ c tl, T ext x = c :: tl ∧ HeadOf x c) →
     ∀ (first : Bool) (acc : List TVal) (n : Nat) (rest : Bytes) (pos : Nat),
       ((if first then Telems ext xs else Ttail ext xs) ++ 0x5d :: rest).length < n →
       match FromValue.seqAll fv xs with
@@ -900,7 +1040,12 @@ theorem seqLoop_text (de : Bytes → Nat → TOut) (fv : JV → FromValue.R) :
       | error e =>
         rw [hfx] at hel
         simp only at hel ⊢
-        exact bind_not_ok (map_not_ok hel)
+        intro a r p
+        cases hde : de (T ext x ++ (Ttail ext xs ++ 0x5d :: rest)) q with
+        | ok v r1 p1 =>
+          simp only [Res.map, Res.bind]
+          exact seqLoop_bad de (hel v r1 p1 hde) n _ _ a r p
+        | _ => simp [Res.map, Res.bind]
       | ok y =>
         rw [hfx] at hel
         simp only at hel ⊢
@@ -1004,7 +1149,7 @@ theorem vok_elem : ∀ (xs : List JV) (x : JV), x ∈ xs → VOK (.arr xs) → V
 
 /-- `Vec<T>` -/
 theorem agree_seq (s : Schema) (f t : Nat) (v : JV) (hv : VOK v) (hd : DepthOK env t v)
-    (ih : ∀ xs, v = .arr xs → ∀ x ∈ xs, Agree1 (deTyped env f (t + 1) s) (FromValue.fromValue cfg' ext' s x) (T ext x)) :
+    (ih : ∀ xs, v = .arr xs → ∀ x ∈ xs, Agree1w (deTyped env f (t + 1) s) (FromValue.fromValue cfg' ext' s x) (T ext x)) :
     Agree1 (deTyped env (f + 1) t (.seq s)) (FromValue.fromValue cfg' ext' (.seq s) v) (T ext v) := by
   intro rest pos hs
   obtain ⟨c, tl, hT, hc⟩ := T_head ext hext v hv
@@ -1013,7 +1158,7 @@ theorem agree_seq (s : Schema) (f t : Nat) (v : JV) (hv : VOK v) (hd : DepthOK e
   rw [deTyped_seq]
   cases v with
   | arr xs =>
-    have hel : ∀ x ∈ xs, Agree1 (deTyped env f (t + 1) s) (FromValue.fromValue cfg' ext' s x) (T ext x) ∧
+    have hel : ∀ x ∈ xs, Agree1w (deTyped env f (t + 1) s) (FromValue.fromValue cfg' ext' s x) (T ext x) ∧
         ∃ c tl, T ext x = c :: tl ∧ HeadOf x c :=
       fun x hx => ⟨ih xs rfl x hx, T_head ext hext x (vok_elem xs x hx hv)⟩
     have hloop := seqLoop_text ext hext hflt cfg' hap (deTyped env f (t + 1) s) (FromValue.fromValue cfg' ext' s) xs hel true []
@@ -1063,12 +1208,12 @@ omit hflt hap hext in
 /-- positionwise agreement of the element parsers of a fixed-length visitor (tuple, struct fields in order) with the
     elements of an array: the i-th schema on the i-th element -/
 def TupAgree (de : Schema → Bytes → Nat → TOut) (fv : Schema → JV → FromValue.R) : List Schema → List JV → Prop
-  | s :: ss, x :: xs => Agree1 (de s) (fv s x) (T ext x) ∧ TupAgree de fv ss xs
+  | s :: ss, x :: xs => Agree1w (de s) (fv s x) (T ext x) ∧ TupAgree de fv ss xs
   | _, _ => True
 
 omit hflt hap hext in
 theorem tupAgree_of_all (de : Schema → Bytes → Nat → TOut) (fv : Schema → JV → FromValue.R) : ∀ (ss : List Schema) (xs : List JV),
-    (∀ s ∈ ss, ∀ x ∈ xs, Agree1 (de s) (fv s x) (T ext x)) → TupAgree ext de fv ss xs
+    (∀ s ∈ ss, ∀ x ∈ xs, Agree1w (de s) (fv s x) (T ext x)) → TupAgree ext de fv ss xs
   | [], _, _ => trivial
   | _ :: _, [], _ => trivial
   | s :: ss, x :: xs, h => ⟨h s (by simp) x (by simp),
@@ -1086,7 +1231,8 @@ theorem tupleLoop_text (f t : Nat) : ∀ (ss : List Schema) (xs : List JV),
             (pos + (if first then Telems ext xs else Ttail ext xs).length -
               (if first && ss.isEmpty then Telems ext rem else Ttail ext rem).length)
       | .error _ => ∀ a r p,
-        tupleLoop env (deTyped env f t) ss first acc ((if first then Telems ext xs else Ttail ext xs) ++ 0x5d :: rest) pos ≠ .ok a r p := by
+        tupleLoop env (deTyped env f t) ss first acc ((if first then Telems ext xs else Ttail ext xs) ++ 0x5d :: rest) pos = .ok a r p →
+          BadHead r := by
   intro ss
   induction ss with
   | nil =>
@@ -1148,7 +1294,12 @@ theorem tupleLoop_text (f t : Nat) : ∀ (ss : List Schema) (xs : List JV),
       | error e =>
         rw [hfx] at hel
         simp only at hel ⊢
-        exact bind_not_ok (map_not_ok hel)
+        intro a r p
+        cases hde : deTyped env f t s (T ext x ++ (Ttail ext xs ++ 0x5d :: rest)) q with
+        | ok v r1 p1 =>
+          simp only [Res.map, Res.bind]
+          exact tupleLoop_bad _ (hel v r1 p1 hde) ss _ _ a r p
+        | _ => simp [Res.map, Res.bind]
       | ok y =>
         rw [hfx] at hel
         simp only at hel ⊢
@@ -1234,7 +1385,7 @@ theorem agree_tuple (ss : List Schema) (f t : Nat) (v : JV) (hv : VOK v) (hd : D
       simp only [FromValue.visitArray]
       intro x r p
       rw [hde]
-      exact closeWith_not_ok _ (map_not_ok hloop) x r p
+      exact closeWith_seq_bad (map_bad hloop) x r p
     | ok pr =>
       obtain ⟨ys, rem⟩ := pr
       rw [hall] at hloop
@@ -1346,14 +1497,14 @@ theorem agree_deTyped {env : Env} (hflt : env.flt = false) (cfg' : FromValue.Cfg
     | seq s' =>
       refine agree_seq ext hext hflt cfg' hap ext' s' f t v hv hd fun xs hxs x hx => ?_
       subst hxs
-      exact ih s' (by simp only [Schema.size] at hs; omega) (by simpa [agreeFrag] using hfr) (t + 1) x (vok_elem xs x hx hv)
-        (noFloat_elem xs x hx (by simpa [Spec.WF.noFloat] using hnf)) (depthOK_elem t xs x hx hd)
+      exact (ih s' (by simp only [Schema.size] at hs; omega) (by simpa [agreeFrag] using hfr) (t + 1) x (vok_elem xs x hx hv)
+        (noFloat_elem xs x hx (by simpa [Spec.WF.noFloat] using hnf)) (depthOK_elem t xs x hx hd)).weak
     | tuple ss =>
       refine agree_tuple ext hext hflt cfg' hap ext' ss f t v hv hd fun xs hxs => tupAgree_of_all ext _ _ ss xs fun s' hs' x hx => ?_
       subst hxs
       have hsz := size_mem_list ss s' hs'
-      exact ih s' (by simp only [Schema.size] at hs; omega) (agreeFrag_mem ss s' hs' (by simpa [agreeFrag] using hfr)) (t + 1) x
-        (vok_elem xs x hx hv) (noFloat_elem xs x hx (by simpa [Spec.WF.noFloat] using hnf)) (depthOK_elem t xs x hx hd)
+      exact (ih s' (by simp only [Schema.size] at hs; omega) (agreeFrag_mem ss s' hs' (by simpa [agreeFrag] using hfr)) (t + 1) x
+        (vok_elem xs x hx hv) (noFloat_elem xs x hx (by simpa [Spec.WF.noFloat] using hnf)) (depthOK_elem t xs x hx hd)).weak
     | _ => simp [agreeFrag] at hfr
 
 end SJ.Proofs.Typed
